@@ -14,11 +14,11 @@ for m in mutants.entries() + mutants.seed_entries() + mutants.benign_entries():
             s = mutants.apply_unified_diff(src, m[3])
             if m[2] == '<patch+alpha>':
                 from selftest import alpha
-                s = alpha.rename_locals(alpha.guard_clauses(alpha.invert_ifs(s)))
+                s = alpha.rename_locals(alpha.flip_comparisons(alpha.guard_clauses(alpha.invert_ifs(s))))
         elif m[2] == '<alpha>':
             from selftest import alpha
             s = {'alpha': alpha.rename_locals, 'invert': alpha.invert_ifs, 'guard': alpha.guard_clauses,
-                 'all': lambda x: alpha.rename_locals(alpha.guard_clauses(alpha.invert_ifs(x)))}[m[3]](src)
+                 'flip': alpha.flip_comparisons, 'all': lambda x: alpha.rename_locals(alpha.flip_comparisons(alpha.guard_clauses(alpha.invert_ifs(x))))}[m[3]](src)
         else:
             s[m[2]] = s[m[2]].replace(m[3], m[4])
         rep = report.Report(m[1], 'quick', 0, write=False)
